@@ -107,9 +107,10 @@ def main(run):
         "(client side) are outside the model"]
     run.prove()
     model = vlib.build_model()
-    variants = ["base"] + (["asan"] if run.tier == "thorough" else [])
-    drivers = {v: vlib.build_driver("h_replay", ["h_replay.c"], variant=v, wraps=WRAPS) for v in variants}
-    drv = drivers["base"]
+    drv = vlib.build_driver("h_replay", ["h_replay.c"], wraps=WRAPS)
+    drv_ub = vlib.build_driver("h_replay_ub", ["h_replay.c"], wraps=WRAPS,
+                               extra=["-DRP_INCLUDE_OSCORE_C", "-fsanitize=shift",
+                                      "-fno-sanitize-recover=shift"])
     r = tie.rng_for(run, "c15")
     quick = run.tier == "quick"
 
@@ -237,11 +238,19 @@ def main(run):
     if elines:
         run.sample({"case": elines[min(len(elines) - 1, 7)], "impl": eo[min(len(eo) - 1, 7)][:300]})
 
-    # sanitizer variant (thorough): undefined shifts, overreads in the real code
-    if "asan" in drivers:
-        sub = [ln for ln, k in zip(lines, kinds) if k in ("corpus", "unit-random", "request-random")][:60000]
-        oa, cra = run_c(drivers["asan"], sub)
-        run.cov["asan_cases"] = len(sub)
-        for j, (idx, rc, err) in enumerate(cra[:3]):
-            run.violation("sanitizer build: the driver aborted (rc=%d) on a case" % rc,
-                          "case: %s\n\n%s\n" % (sub[idx], err), tag="asan%d" % j)
+    # the same recipient cases on a build in which src/oscore/oscore.c is compiled with
+    # -fsanitize=shift (no recovery): a shift by >= 64 bits aborts the driver on that case
+    sub = [ln for ln in lines if ln.startswith("rpu") or ln.startswith("rpd")]
+    ou, cru = run_c(drv_ub, sub)
+    run.cov["shift_sanitizer_cases"] = len(sub)
+    for j, (idx, rc, err) in enumerate(cru[:2]):
+        run.violation("undefined shift evaluated in the replay-window code (driver built with "
+                      "-fsanitize=shift aborted, rc=%d): %s" % (rc, err.strip().splitlines()[0][:160] if err.strip() else ""),
+                      "case: %s\n\n%s\n" % (sub[idx], err), tag="shift%d" % j)
+    nmis = 0
+    for ln, a, b in zip(sub, ou, [oc[i] for i, l2 in enumerate(lines) if l2.startswith("rpu") or l2.startswith("rpd")]):
+        if a != b and not a.startswith("CRASH") and nmis < 1:
+            nmis += 1
+            run.violation("plain and shift-sanitized builds of the driver disagree",
+                          "correspondence case: %s\nplain: %s\nsanitized: %s\n" % (ln, b, a),
+                          tag="ubdiff", no_input=True)
